@@ -11,7 +11,10 @@ def defs(text):
     for m in re.finditer(r'^Definition (\w+)[^\n]*?:=(.*?)\.\s*$', text, re.S | re.M):
         out[m.group(1)] = ' '.join(m.group(2).split())
     return out
-base = defs(extract.run('/repo/src')[1])
+d0 = tempfile.mkdtemp(prefix='hq_')
+subprocess.run('git -C /repo archive HEAD src | tar -x -C %s' % d0, shell=True, check=True)
+base = defs(extract.run(os.path.join(d0, 'src'))[1])
+shutil.rmtree(d0, ignore_errors=True)
 for p in sorted(glob.glob(os.path.join(os.path.dirname(os.path.abspath(__file__)), '..', 'harmless', '*.diff'))):
     d = tempfile.mkdtemp(prefix='hq_')
     try:
